@@ -187,8 +187,12 @@ def rule_scope(ctx):
 
 def rule_index(ctx):
     """Every bounds Assert and every range Index in the input layer is implied by dominating guards."""
+    n = audit_index(ctx, scope_bodies(ctx.ix)[0])
+    ctx.floor("index sites in the input layer", n, 10)
+
+
+def audit_index(ctx, bodies):
     ix = ctx.ix
-    bodies, _ = scope_bodies(ix)
     n = 0
     for b in bodies:
         sc = None
@@ -252,7 +256,7 @@ def rule_index(ctx):
                     if not res_ok[-1]:
                         which.append("end <= len")
                     ctx.bad(key, "range index %s: %s is not implied by the dominating tests; a suitable argument list panics the main thread" % (desc, " and ".join(which) or "bound"), b.where(blk.idx))
-    ctx.floor("index sites in the input layer", n, 10)
+    return n
 
 
 def dedup(seen, key):
@@ -322,8 +326,24 @@ def counter_like(b, local):
 
 def rule_arith(ctx):
     """Overflow / division asserts in the input layer cannot fire."""
+    n = audit_arith(ctx, scope_bodies(ctx.ix)[0])
+    ctx.floor("arithmetic asserts in the input layer", n, 8)
+
+
+def quotient_sum(b, t):
+    """a/c1 + b/c2 with constant divisors >= 2 cannot overflow the common unsigned type."""
+    for o in t["aops"]:
+        p = op_place(o)
+        if p is None or not mir.is_local(p):
+            return False
+        sd = b.single_def(p["l"])
+        if not (sd and sd[2].get("k") == "binop" and sd[2]["op"] == "Div" and (const_int(sd[2]["b"]) or 0) >= 2):
+            return False
+    return True
+
+
+def audit_arith(ctx, bodies):
     ix = ctx.ix
-    bodies, _ = scope_bodies(ix)
     n = 0
     for b in bodies:
         sc = None
@@ -340,6 +360,9 @@ def rule_arith(ctx):
                 d = cond_constant(b, t)
                 ctx.check(d is not None, site_key(b, "arith", "%s:const-divisor" % kind), "division by a non-zero constant", b.where(blk.idx),
                           bad_what="division whose divisor is not a non-zero constant: may panic on input")
+                continue
+            if kind.startswith("overflow:Add") and quotient_sum(b, t):
+                ctx.ok(site_key(b, "arith", "add:quotients"), "sum of two quotients by constants >= 2 cannot overflow", b.where(blk.idx))
                 continue
             if kind.startswith("overflow:Add"):
                 a = sc.res.lin(t["aops"][0])
@@ -364,8 +387,8 @@ def rule_arith(ctx):
                 else:
                     ctx.bad(key, "addition %s with a non-constant or huge addend may overflow" % desc, b.where(blk.idx))
                 continue
-            ctx.bad(site_key(b, "arith", kind), "arithmetic check `%s` in input-handling code is not discharged" % kind, b.where(blk.idx))
-    ctx.floor("arithmetic asserts in the input layer", n, 8)
+            ctx.bad(site_key(b, "arith", kind), "arithmetic check `%s` is not discharged" % kind, b.where(blk.idx))
+    return n
 
 
 def cond_constant(b, t):
@@ -440,8 +463,12 @@ def quit_edge_reach(cb, sym, sw, target):
 
 def rule_no_assert_on_input(ctx):
     """Diverging calls (panic!, assert!, unreachable!) in the input layer must be unreachable for every input."""
+    n = audit_diverging(ctx, scope_bodies(ctx.ix)[0])
+    ctx.check(True, "diverging-call-sites-enumerated", "%d diverging call site(s) enumerated in the input layer" % n)
+
+
+def audit_diverging(ctx, bodies):
     ix = ctx.ix
-    bodies, _ = scope_bodies(ix)
     n = 0
     for b in bodies:
         sym = None
@@ -457,8 +484,8 @@ def rule_no_assert_on_input(ctx):
                 ctx.check(ok, key, "the `unreachable!` of the Quit arm is dead: every caller of execute_command routes Quit away first (%s)" % why, b.where(bi),
                           bad_what="execute_command panics on Quit and a caller can pass Quit: %s" % why)
                 continue
-            ctx.bad(key, "an explicit panic (`%s`) is reachable in input-handling code: if its condition depends on the input line, that line kills the engine" % (msg or t.get("callee")), b.where(bi))
-    ctx.check(True, "diverging-call-sites-enumerated", "%d diverging call site(s) enumerated in the input layer" % n)
+            ctx.bad(key, "an explicit panic (`%s`) is reachable here: if its condition can be true at run time the thread dies" % (msg or t.get("callee")), b.where(bi))
+    return n
 
 
 def panic_message(b, sym, bi):
@@ -475,8 +502,12 @@ def panic_message(b, sym, bi):
 
 def rule_unwrap(ctx):
     """May-panic std calls in the input layer (unwrap/expect/remove/...)."""
+    n = audit_may_panic(ctx, scope_bodies(ctx.ix)[0])
+    ctx.check(True, "may-panic-sites-enumerated", "%d may-panic std call site(s) found in the input layer" % n)
+
+
+def audit_may_panic(ctx, bodies):
     ix = ctx.ix
-    bodies, _ = scope_bodies(ix)
     n = 0
     for b in bodies:
         sym = None
@@ -494,8 +525,8 @@ def rule_unwrap(ctx):
             sym = sym or mir.Sym(b, ix)
             recv = expr_str(sym.operand(t["args"][0])) if t.get("args") else ""
             key = site_key(b, "may-panic", "%s(%s)" % (C.short(c), recv[:70].replace(":", ";")))
-            ctx.bad(key, "%s on %s can panic the main thread (an I/O error, a missing value or an out-of-range argument is input-dependent)" % (C.short(c), recv[:100]), b.where(bi))
-    ctx.check(True, "may-panic-sites-enumerated", "%d may-panic std call site(s) found in the input layer" % n)
+            ctx.bad(key, "%s on %s can panic (an I/O error, a missing value or an out-of-range argument)" % (C.short(c), recv[:100]), b.where(bi))
+    return n
 
 
 def rule_boundary(ctx):
